@@ -6,7 +6,7 @@
        pairwise different, the uid table enumerates the columns, role lists without repetition, made of live uids, pairwise disjoint).
    Boolean versions are used by Run.v; their equivalence with the Prop versions is proved in Proofs_wf.v. *)
 From Coq Require Import List ZArith QArith Bool.
-From Gst Require Import C09.Model C09.Readers.
+From Gst Require Import C09.Model C09.Readers C09.Readers2.
 Import ListNotations.
 Local Open Scope Z_scope.
 
@@ -42,6 +42,17 @@ Definition wf_polyelem (p : polyelem) : Prop := wf_polyline (pe_line p).
 Definition wf_polygons (l : list polyelem) : Prop :=
   Forall (fun p => wf_polyelem p /\ 3 <= zlen (pl_x (pe_line p))) l.
 Definition wf_faults (l : list polyline) : Prop := Forall wf_polyline l.
+
+(* second wave *)
+Definition wf_rule (r : rule) : Prop := ru_built r = true /\ ru_complete r = true /\ 0 < ru_nnode r.
+Definition wf_anamh (a : anamh) : Prop := 0 < zlen (ah_psi a) /\ zlen (ah_bounds a) = 10.
+Definition wf_neighmoving (n : neighmoving) : Prop :=
+  0 < nm_ndim n /\ zlen (nm_ints n) = 5 /\ (nm_coeffs n = [] \/ zlen (nm_coeffs n) = nm_ndim n) /\
+  (nm_rotmat n = [] \/ zlen (nm_rotmat n) = nm_ndim n * nm_ndim n).
+Definition wf_vario (v : vario) : Prop := 0 < va_nvar v /\ zlen (va_dirs v) = va_ndir v.
+Definition wf_gmodel (g : gmodel) : Prop := 0 < gm_ndim g /\ 0 < gm_nvar g /\ zlen (gm_types g) = gm_ncova g.
+Definition wf_rule_b (r : rule) : bool := ru_built r && ru_complete r && (0 <? ru_nnode r).
+Definition wf_vario_b (v : vario) : bool := (0 <? va_nvar v) && (zlen (va_dirs v) =? va_ndir v).
 
 (* ------------------------------------------------------------------ boolean versions *)
 Fixpoint memZ (x : Z) (l : list Z) : bool := match l with [] => false | y :: r => (x =? y) || memZ x r end.
